@@ -114,13 +114,13 @@ func check(id, tier, repo, verif, onlyCfg string) (code int) {
 		for _, mr := range results {
 			rep.Count("selftest_"+mr.Status, 1)
 			fmt.Printf("selftest %s/%s: %s %s\n", id, mr.Spec.Name, mr.Status, mr.Reported)
-			if mr.Status == "missed" {
+			if mr.Status == "missed" || mr.Status == "false-alarm" {
 				missed++
 			}
 		}
 		rep.Count("selftest_mutants", len(results))
 		if missed > 0 {
-			fmt.Fprintf(os.Stderr, "verifsa: sensitivity self-test failed: %d frozen mutants of %s were applied, compile, and were not reported; the checker (not /repo) is defective\n", missed, id)
+			fmt.Fprintf(os.Stderr, "verifsa: self-test failed: %d frozen mutants of %s were applied, compile, and were not reported - or behaviour-preserving edits were reported; the checker (not /repo) is defective\n", missed, id)
 			rep.Finish(verif, start, seed)
 			return 2
 		}
